@@ -25,15 +25,20 @@ THEOREMS = [
     "C09_inline",
     "C09_inline_history",
     "C09_flatten",
+    "C09_macro_eq_inlined",
+    "C09_by_value_rerun",
     "C09_links_sync_partial",
-    "C09_links_sync_history",
+    "C09_child_output_sync",
+    "C09_links_read",
+    "C09_setter_keeps_links",
     "C09_links_sync_receiving_witness",
     "C09_links_sync_not_statement",
-    "C09_dup_return_witness",
     "C09_dup_return_repaired",
+    "C09_dup_return_values",
+    "C09_dup_return_witness",
     "C09_isolated",
     "C09_interface",
-    "C09_by_value_rerun",
+    "C09_input_by_value",
     "C09_hint_checked_only_when_single_use",
 ]
 RULE = (
@@ -52,6 +57,10 @@ TRUSTED = [
     "hint comparison restricted to a chain of three hints (str|tuple, str|tuple|int, object); the comparison "
     "itself is C04's subject",
 ]
+EXPLANATION = (
+    "cases in modes clean/child never leave the hypotheses of the partial theorems (no duplicate returns, no update "
+    "on a receiving end): there no oracle failure is excusable; mode any adds both and must hit exactly KF-C09-1/2"
+)
 ASSUMPTIONS = [
     "wrapped functions are deterministic free-term constructors; no executor, no failing child (C01/C06/C10)",
     "definitions are closed: every input of a nested macro is fed or has a default",
@@ -386,6 +395,25 @@ def _paths(n, here=()):
     return out
 
 
+def _targets(defn):
+    """child-level channels by kind"""
+    t = {"free": [], "connected": [], "receiver": [], "leaf_out": [], "mac_out": [], "ui": []}
+    for p in [()] + _paths(defn):
+        nd = node_at(defn, p)
+        if p:
+            for k in range(arity(nd)):
+                t[input_kind(defn, list(p), k)].append((list(p), k))
+        if nd["t"] == "L":
+            t["leaf_out"].append((list(p), 0))
+        else:
+            for o in range(len(nd["rets"])):
+                t["mac_out"].append((list(p), o))
+            for k in range(len(nd["args"])):
+                if role(nd, k) == ("ui",):
+                    t["ui"].append((list(p), k))
+    return t
+
+
 def gen_history(rng, defn, mode, cache):
     """mode: clean | child | any"""
     nargs = len(defn["args"])
@@ -398,8 +426,17 @@ def gen_history(rng, defn, mode, cache):
             if rng.random() < 0.8:
                 kwargs.append([k, _value(rng)])
     given = {k for k, _ in kwargs}
-    sub = _paths(defn)
-    mac_paths = [()] + [p for p in sub if node_at(defn, p)["t"] == "M"]
+    tg = _targets(defn)
+    kinds = []
+    if mode in ("child", "any"):
+        kinds += [("setin", "free")] * 3
+        if not cache:
+            kinds += [("setin", "connected"), ("setout", "leaf_out"), ("setout", "leaf_out"), ("setuiout", "ui")]
+    if mode == "any":
+        kinds += [("setin", "receiver")] * 3 + [("setuiin", "ui")] * 2
+        if not cache:
+            kinds += [("setout", "mac_out")] * 2
+    kinds = [(o, k) for o, k in kinds if tg[k]]
     for t in range(n_ops):
         r = rng.random()
         need = [k for k in missing if k not in given]
@@ -408,69 +445,51 @@ def gen_history(rng, defn, mode, cache):
             given.add(k)
             ops.append(["setin", [], k, _value(rng)])
             continue
-        if r < 0.35 or t == n_ops - 1:
+        if r < 0.33 or t == n_ops - 1:
             if nargs and rng.random() < 0.4:
                 kw = [[k, _value(rng)] for k in rng.sample(range(nargs), rng.randint(1, nargs))]
                 given |= {k for k, _ in kw}
                 ops.append(["call", kw])
             else:
                 ops.append(["run"])
-        elif r < 0.6 and nargs:
+        elif (r < 0.55 or not kinds) and nargs:
             k = rng.randrange(nargs)
             given.add(k)
             ops.append(["setin", [], k, _value(rng)])
-        elif mode == "clean" or not sub:
-            ops.append(["run"])
+        elif kinds:
+            o, kind = rng.choice(kinds)
+            p, k = rng.choice(tg[kind])
+            ops.append([o, p, k, _value(rng)])
         else:
-            q = rng.random()
-            if q < 0.45:
-                p = list(rng.choice(sub))
-                nd = node_at(defn, p)
-                if arity(nd) == 0:
-                    continue
-                k = rng.randrange(arity(nd))
-                kind = input_kind(defn, p, k)
-                if kind == "receiver" and mode != "any":
-                    continue
-                if kind == "connected" and cache:
-                    continue
-                ops.append(["setin", p, k, _value(rng)])
-            elif q < 0.75:
-                if cache:
-                    continue
-                p = list(rng.choice(sub)) if (mode != "any" or rng.random() < 0.7) else list(rng.choice(mac_paths))
-                nd = node_at(defn, p)
-                if nd["t"] == "M" and mode != "any":
-                    continue  # a macro's own output is the receiving end of a link
-                if D.nout(nd) == 0:
-                    continue
-                ops.append(["setout", p, rng.randrange(D.nout(nd)), _value(rng)])
-            else:
-                p = list(rng.choice(mac_paths))
-                nd = node_at(defn, p)
-                ks = [k for k in range(len(nd["args"])) if role(nd, k) == ("ui",)]
-                if not ks:
-                    continue
-                k = rng.choice(ks)
-                if rng.random() < 0.5:
-                    if mode != "any":
-                        continue
-                    ops.append(["setuiin", p, k, _value(rng)])
-                else:
-                    if cache:
-                        continue
-                    ops.append(["setuiout", p, k, _value(rng)])
+            ops.append(["run"])
     if not any(o[0] in ("run", "call") for o in ops):
         ops.append(["run"])
     return kwargs, ops
 
 
+def _make_ill(defn, rng):
+    """turn one direct parameter -> nested-parameter feed into an ill-typed one (object -> str|tuple)"""
+    spots = []
+    for m in D.macros_of(defn):
+        for ch in m["body"]:
+            if ch["t"] == "M":
+                for i, s in enumerate(ch["srcs"]):
+                    if s[0] == "a":
+                        spots.append((m, ch, i, s[1]))
+    if spots:
+        m, ch, i, k = rng.choice(spots)
+        m["args"][k]["h"] = 3
+        ch["args"][i]["h"] = 1
+
+
 def _case(rng, tier_depth, mode, allow_dup, allow_ill):
     ids = _Ids()
     defn = gen_macro(rng, ids, tier_depth, allow_dup, top=True)
+    if allow_ill and rng.random() < 0.6:
+        _make_ill(defn, rng)
     if not hints_consistent(defn) and not allow_ill:
         strip_hints(defn)
-    cache = (rng.random() < 0.6) if mode == "clean" else (rng.random() < 0.3)
+    cache = (rng.random() < 0.6) if mode == "clean" else (rng.random() < 0.35)
     kwargs, ops = gen_history(rng, defn, mode, cache)
     return {"def": defn, "kwargs": kwargs, "cache": cache, "ops": ops, "mode": mode}
 
@@ -541,17 +560,19 @@ MALFORMED = [
 
 def gen_cases(rng, tier):
     if tier == "quick":
-        n = 260
+        n = 640
         pats = _pattern_cases()
         rng.shuffle(pats)
-        yield from pats[:40]
+        yield from pats[:60]
     else:
-        n = 3000
+        n = 12000
         yield from _pattern_cases()
     for i in range(n):
-        r = i % 4
-        mode = ("clean", "clean", "child", "any")[r]
-        allow_dup = r == 3 and rng.random() < 0.5
+        r = i % 5
+        # modes 0-2 (clean, clean, child) stay inside the hypotheses of the partial theorems: no failure is
+        # excusable there; modes 3-4 add updates on receiving ends and duplicate returns (the known findings)
+        mode = ("clean", "clean", "child", "child", "any")[r]
+        allow_dup = r == 4 and rng.random() < 0.5
         allow_ill = rng.random() < 0.15
         d = rng.choice([0, 1, 1, 2]) if tier == "quick" else rng.choice([0, 1, 1, 2, 2])
         yield _case(rng, d, mode, allow_dup, allow_ill)
@@ -744,11 +765,19 @@ def _isolation(n, obj, path, out):
                 for c in ch.connections:
                     if c.owner.parent is not obj:
                         out.append(f"{path_tok(path)}:{child.label}.{lab}->{c.owner.label}.{c.label}")
+    own = set()
     for panel in (obj.inputs, obj.outputs):
         for lab, ch in panel.items():
+            own.add(id(ch))
             for c in ch.connections:
                 if c.owner.parent is obj:
                     out.append(f"{path_tok(path)}:own.{lab}->{c.owner.label}.{c.label}")
+    # the macro's own channels are objects distinct from its children's
+    for child in obj:
+        for panel in (child.inputs, child.outputs):
+            for lab, ch in panel.items():
+                if id(ch) in own:
+                    out.append(f"{path_tok(path)}:{child.label}.{lab} IS a macro channel")
     if n["t"] == "M":
         for j, ch in enumerate(n["body"]):
             _isolation(ch, _kid(obj, j), list(path) + [j], out)
@@ -1022,14 +1051,16 @@ def _f(clause, detail, **sig):
 
 
 def _op_receiving(defn, op):
-    """is this op an update on the receiving end of a value link?"""
-    if op[0] == "setin":
-        return input_kind(defn, op[1], op[2]) == "receiver"
+    """if this op is an update on the receiving end of a value link: the (side, macro path, index) of the
+    macro channel on the sending end, else None"""
+    if op[0] == "setin" and op[1] and input_kind(defn, op[1], op[2]) == "receiver":
+        s = node_at(defn, op[1])["srcs"][op[2]]
+        return ("in", list(op[1][:-1]), s[1])
     if op[0] == "setuiin":
-        return True
-    if op[0] == "setout":
-        return node_at(defn, op[1])["t"] == "M"
-    return False
+        return ("in", list(op[1]), op[2])
+    if op[0] == "setout" and node_at(defn, op[1])["t"] == "M":
+        return ("out", list(op[1]), op[2])
+    return None
 
 
 def _sync(n, s, path):
@@ -1114,15 +1145,16 @@ def oracle(case, impl):
                 break
         if s is None:
             break
-        recv = _op_receiving(defn, op) if t > 0 else False
+        recv = _op_receiving(defn, op) if t > 0 else None
         if op[0] == "setin" and op[1] and input_kind(defn, op[1], op[2]) == "free":
             ov[(tuple(op[1]), op[2])] = jtok(op[3])
         x = _sync(defn, s, [])
         if x is not None:
             side, path, idx, isdup, detail = x
+            # excusable as "one-directional link" only when the pair that differs is the updated link itself
             return _f("sync", f"after op #{t} {op}: macro {path_tok(path)} {detail}", side=side, trigger=op[0],
-                      receiving_side=recv, dup_return=isdup)
-        if recv:
+                      receiving_side=(recv == (side, list(path), idx)), dup_return=isdup)
+        if recv is not None:
             tainted = True  # (not reached on the pinned tree: the sync clause fails first)
         if op[0] in ("run", "call") and not tainted:
             exp = py_eval(defn, s["in"], ov, ())
